@@ -20,4 +20,4 @@ once per half. R10.5 / R10.6 span handling of the packed entry points."""
 NOT_DECIDED = """That the lane arithmetic (alignr / permute2x128 emulation of byte shifts across 128-bit lanes, interleave order in fat verification) produces the leftmost match for all positions and contents: SIMD semantics are outside MIR-level reasoning. cfg(target_arch = aarch64) code is not compiled here."""
 CLAIM = """Static decision of the structural template that all eight generic Teddy searchers must share (window arithmetic, carry vectors and their tail reset, verification base and geometry), of the ordering sources that make 'first verified' the semantically correct pattern, and of the dispatch between algorithms."""
 NOTE = """Trusted: rustc MIR construction, the fact extractor, the semantics of the SIMD intrinsics. One MIR body per const-generic impl block is analysed (8 x find/find_one/candidate)."""
-TECHNIQUE = "static analysis: sibling/template agreement over const-generic impl bodies, must-pass-through and reaching-definition rules over rustc MIR"
+TECHNIQUE = "static analysis: sibling/template agreement over const-generic impl bodies, window / bit geometry tabulated on loop-iteration summaries, must-pass-through and reaching-definition rules over rustc MIR"
